@@ -227,3 +227,21 @@ Theorem width_irrelevant_transpose : forall t R C rc cc,
     rmap (fun p => (tv (fst p), tv (snd p))) (m_transpose DInf R C rc cc).
 Proof. exact width_irrelevant_transpose_proof. Qed.
 Print Assumptions width_irrelevant_transpose.
+
+(* ---- COO.__init__ canonicalisation (_sort_indices, _sum_duplicates): "already sorted?" and "adjacent
+        duplicate?" are decided by np.diff of linear_loc()'s result.  Its dtype is regenerated from the return
+        statements of linear_loc (s_linear_loc_dtype: intp for every stored dtype and every ndim), so the
+        tests are exact for every index type — with a stored unsigned dtype np.diff would wrap and never
+        report a descent *)
+Theorem sortedness_test_exact : forall t ndim lin,
+  lin_ok lin ->
+  m_sorted_test (DInt t) ndim lin = m_sorted_test DInf ndim lin /\
+  m_sorted_test (DInt t) ndim lin = forallb (fun p => fst p <=? snd p) (combine lin (tl lin)) /\
+  m_dup_mask (DInt t) ndim lin = map (fun p => negb (fst p =? snd p)) (combine lin (tl lin)).
+Proof. exact sortedness_test_exact_proof. Qed.
+Print Assumptions sortedness_test_exact.
+
+Theorem width_irrelevant_canonicalisation : forall t ndim ps,
+  m_canon (DInt t) ndim ps = m_canon DInf ndim ps.
+Proof. exact width_irrelevant_canon_proof. Qed.
+Print Assumptions width_irrelevant_canonicalisation.
